@@ -144,6 +144,20 @@ class Broker(Stream):
         return None
 
 
+class E2E(Stream):
+    name = "audite2e"
+    driver = "audite2e"
+    harness = dict(_VAULT, name=_VAULT["name"] + "e", files=dict(_VAULT["files"], **{"internal/vault/zz_verif_c11e_test.go": "wb/vault/zz_verif_c11e_test.go"}))
+    testname = "TestVerifC11E2E"
+    rule = ("real Core + the REAL file audit device (default mode) + a kv mount tuned with random audit_non_hmac_request_keys / "
+            "audit_non_hmac_response_keys (first case: disjoint lists); 6 write/read pairs per case, every value a fresh canary; "
+            "after each request the new lines of the audit file are scanned for the canaries; compared: the set of keys whose "
+            "values are in clear; predicate: clear only under a key exempted for that side; non-trivial = every line")
+
+    def nontrivial(self, op, impl):
+        return impl.startswith("clear:")
+
+
 class Pipe(Stream):
     name = "auditpipe"
     driver = "auditpipe"
@@ -196,7 +210,7 @@ class C11(PropCheck):
 
     def pre(self, ctx):
         core.regenerate()
-    streams = [HashWalk(), Broker(), Pipe()]
+    streams = [HashWalk(), Broker(), Pipe(), E2E()]
     level_text = ("Lean theorems, all inputs: hash_no_plain_leaf / secret_only_where_exempt (every data tree, key list and HMAC "
                   "function: a string leaf survives in clear only if RFC 3339 shaped or under an exempt innermost key; shape "
                   "preserved), hash_auth_wrap (client and wrapping tokens always hidden, accessors iff hmac_accessor), "
